@@ -40,7 +40,7 @@ def run(chk: harness.Check):
         "AisleConf::ingredients_info. D2: on the MIR of aisle::parse, each HashSet::insert into used_categories / used_names is dominated by a "
         "HashSet::get of the same key expression in the same set, is unreachable from its found outcome (which builds the Duplicate* error), and the "
         "names/categories that are stored have the same trimming in their lineage as the keys that were checked. D3: calc_span returns "
-        "Span::new(offset_from(s.as_ptr(), input.as_ptr()), that + s.len()). D4: ingredients_info builds every IngredientInfo with common_name = names.first() of the iterated line, category = the enclosing category's name, and inserts it under the iterated name. Necessary conditions; the write∘parse round trip is not decided.")
+        "Span::new(offset_from(s.as_ptr(), input.as_ptr()), that + s.len()). D4: ingredients_info builds every IngredientInfo with common_name = names.first() of the iterated line, category = the enclosing category's name, and inserts it under the iterated name. D5: the format templates of aisle::write (decoded from MIR) put exactly the characters around category names and between names that aisle::parse strips and splits on, and end every line with a line feed. Necessary conditions; the write∘parse round trip itself is not decided.")
     chk.trusted = ["tables/panics.toml, narrow_arith.toml, progress.toml", "HashSet::get/insert semantics"]
     ents = []
     for s in ("cooklang::aisle::parse", "cooklang::aisle::write", "cooklang::aisle::AisleConf::ingredients_info", "cooklang::aisle::AisleConf::reverse"):
@@ -59,6 +59,72 @@ def run(chk: harness.Check):
     d2_duplicates(chk, F)
     d3_spans(chk, F)
     d4_lookup(chk, F)
+    d5_writer_reader_tokens(chk, F)
+
+
+def d5_writer_reader_tokens(chk, F):
+    """write() and parse() are siblings over one concrete syntax: the literal text the writer puts around a category
+    name and between the names of a line must be exactly what the parser strips and splits on, every name of a line
+    is written, and each line ends with a line feed (decoded from the format_args! templates in MIR)."""
+    import fmtq
+    from flow import show, leaves
+    w = F.funcs.get("cooklang::aisle::write") or next((g for g in F.find("aisle::write") if not g.is_closure()), None)
+    p = F.funcs.get("cooklang::aisle::parse")
+    if w is None or p is None:
+        chk.fail("anchor-missing", "aisle::write/parse", "", "anchor-missing: aisle::write or aisle::parse not found")
+        return
+    # reader side
+    rd = {}
+    for g in F.region_funcs(p.key):
+        for b, t in g.calls():
+            k = (callee_key(t) or "").rsplit("::", 1)[-1]
+            for a in t.get("args", []):
+                c = a.get("const") or {}
+                if "char" in c and k in ("starts_with", "ends_with", "split", "contains", "strip_prefix", "strip_suffix"):
+                    rd.setdefault(k, set()).add(c["char"])
+    open_c = rd.get("starts_with", set()) | rd.get("strip_prefix", set())
+    close_c = rd.get("ends_with", set()) | rd.get("strip_suffix", set())
+    sep_c = rd.get("split", set())
+    ok = len(open_c) == 1 and len(close_c) == 1 and len(sep_c) == 1
+    chk.expect(ok, "C11.D5-syntax-agreement", "parse|delimiters", f"{p.file}:{p.line}",
+               f"aisle::parse no longer has exactly one opening, closing and separator character (found {sorted(open_c)}, {sorted(close_c)}, {sorted(sep_c)})",
+               sample=f"{p.file}:{p.line}: parse uses {sorted(open_c)} name {sorted(close_c)}, names split on {sorted(sep_c)}")
+    if not ok:
+        return
+    o, c, sp = next(iter(open_c)), next(iter(close_c)), next(iter(sep_c))
+    sites = []
+    for g in F.region_funcs(w.key):
+        for st in fmtq.format_sites(g):
+            sites.append((g, st))
+    chk.floor("C11.D5-syntax-agreement", "format sites in aisle::write", len(sites), 4, f"{w.file}:{w.line}")
+    def field_of(e):
+        txt = show(e, -50)
+        return "category" if txt.rstrip(")").endswith(".name") else ("name" if ".names" in txt else "?")
+    cat = [(g, st) for g, st in sites if any(tk[0] == "arg" and field_of(tk[1]) == "category" for tk in st["tokens"])]
+    nam = [(g, st) for g, st in sites if any(tk[0] == "arg" and field_of(tk[1]) == "name" for tk in st["tokens"])]
+    lits = [(g, st) for g, st in sites if all(tk[0] == "lit" for tk in st["tokens"])]
+    okc = len(cat) == 1 and fmtq.render(cat[0][1]["tokens"], lambda e: "") == f"{o}{{}}{c}\n"
+    chk.expect(okc, "C11.D5-syntax-agreement", "write|category line", f"{w.file}:{cat[0][1]['line'] if cat else w.line}",
+               f"a category must be written as `{o}name{c}` + line feed, which is what parse() recognises; write() emits "
+               f"{[fmtq.render(st['tokens'], lambda e: '') for _, st in cat]}", sample=f"{w.file}: category written as {o}{{}}{c}\\n")
+    forms = sorted(fmtq.render(st["tokens"], lambda e: "") for _, st in nam)
+    okn = forms == sorted(["{}", sp + "{}"]) or forms == sorted(["{}" + sp]) or forms == sorted(["{}", "{}" + sp])
+    chk.expect(okn, "C11.D5-syntax-agreement", "write|names of a line", f"{w.file}:{nam[0][1]['line'] if nam else w.line}",
+               f"the names of a line must be written verbatim, separated by `{sp}` (the character parse() splits on); write() emits {forms}",
+               sample=f"{w.file}: names written as {forms}")
+    # every name is written: the first from iter.next(), the rest from a loop over the same iterator
+    srcs = set()
+    for g, st in nam:
+        for tk in st["tokens"]:
+            if tk[0] == "arg":
+                srcs |= {l for l in leaves(tk[1]) if l.startswith("call:") and ("next" in l or "iter" in l or "into_iter" in l)}
+    chk.expect(any(l.endswith("<impl [T]>::iter") or "into_iter" in l for l in srcs) and any("next" in l for l in srcs),
+               "C11.D5-syntax-agreement", "write|all names", f"{w.file}:{w.line}",
+               "the written names do not come from an iteration over ingredient.names", sample=f"{w.file}: names come from ingredient.names.iter()")
+    okl = len(lits) >= 2 and all(fmtq.render(st["tokens"], lambda e: "") == "\n" for _, st in lits)
+    chk.expect(okl, "C11.D5-syntax-agreement", "write|line ends", f"{w.file}:{w.line}",
+               f"ingredient lines and categories must end with a line feed; write() emits the literals {[fmtq.render(st['tokens'], lambda e: '') for _, st in lits]}",
+               sample=f"{w.file}: {len(lits)} bare line feeds (end of names line, end of category)")
 
 
 def d4_lookup(chk, F):
